@@ -159,6 +159,15 @@ class C03(Prop):
                     if rc.cls == RC_INVALID:
                         raise Violation("%s: text outside the dialect accepted by entry %d (require_null_terminated=%d): %r (first bad byte at %d)" % (
                             label, entry, rq, judged[:200], rc.bad_offset), key="accepted:" + label)
+                    if rq and rc.cls == RC_STRICT:
+                        # bytes after the first complete value may be accepted ONLY when termination is not required
+                        tail = data[rc.value_end:]
+                        k = 0
+                        while k < len(tail) and tail[k] != 0 and tail[k] <= 0x20:
+                            k += 1
+                        if k == len(tail) or tail[k] > 0x20:
+                            raise Violation("%s: termination required, the value is followed by %r, yet entry %d accepted the text %r" % (
+                                label, tail[:12], entry, judged[:200]), key="accepted-trailing:" + label)
                     if fl:
                         raise Violation("accepted text gives a tree with structural flags", key="structure")
                 else:
